@@ -579,7 +579,10 @@ def c16(ctx, e):
             # after the summary was recorded nothing new may be recorded under this context, and nothing inside re-executes
             done_at = next((i for i, u in enumerate(e.backend.stream) if u["id"] == oid and u["action"] == "SUCCEED"), None)
             ids_under = {path_id(p) for p in nodes if p.startswith(path + "/")}
+            done_inv = e.backend.stream[done_at]["inv"] if done_at is not None else 0
             for u in e.backend.stream[(done_at or 0) + 1:]:
+                if u["inv"] <= done_inv:
+                    continue        # a straggler of the invocation that completed the context is C10's matter (check-then-put)
                 if u["id"] in ids_under or (u["parent"] in ids_under) or u["parent"] == oid:
                     ctx.violation("new-record-on-replay", f"{path}: update {u['action']} for {u['name']} recorded after the summary", scen_of(e))
                     return
